@@ -51,8 +51,10 @@ def run(ctx):
     # ---------------- G : enumerate cases
     cases = ctx.tlc_gen("DagDiff", "GenDagDiff.tla", "GenDagDiff.cfg", timeout=1200)
     if ctx.quick:
-        ctx.rng.shuffle(cases)
-        cases = cases[:1500]
+        same = [c for c in cases if c["a"] == c["b"]]          # every a = b case (Diff(a, a) = <<>>)
+        rest = [c for c in cases if c["a"] != c["b"]]
+        ctx.rng.shuffle(rest)
+        cases = same + rest[:1500]
     else:
         two = ctx.tlc_gen("DagDiff", "GenDagDiff.tla", "GenDagDiffK2.cfg", timeout=2400)
         seen = {json.dumps(c, sort_keys=True) for c in cases}
